@@ -273,6 +273,46 @@ func init() {
 		}
 		return OkV(stackSx(blk.SignatureStack))
 	})
+	// several SignAndAddNewSignature calls on ONE signer; the stack is reported after each
+	regOp("ib_sign_attempts", func(a []Sx) Sx {
+		blk := &ib.IntegrityBlock{Magic: ib.IntegrityBlockMagic, Version: ib.VersionB1, SignatureStack: stackOf(a[1].L)}
+		s := ib.IntegrityBlockSigner{WebBundleHash: a[0].B, IntegrityBlock: blk}
+		out := []Sx{}
+		for _, at := range a[2].L {
+			var st tableStrategy
+			if at.L[4].K == 1 && len(at.L[4].B) == ed25519.SeedSize {
+				st.priv = ed25519.NewKeyFromSeed(at.L[4].B)
+				st.pub = st.priv.Public().(ed25519.PublicKey)
+			}
+			if at.L[5].K == 1 && len(at.L[5].B) > 0 {
+				st.pad = at.L[5].B
+			}
+			s.SigningStrategy = st
+			tag := "ok"
+			if err := s.SignAndAddNewSignature(ed25519.PublicKey(at.L[0].B), attrsOf(at.L[1])); err != nil {
+				tag = "err"
+			}
+			out = append(out, L(Sym(tag), stackSx(s.IntegrityBlock.SignatureStack)))
+		}
+		return L(out...)
+	})
+	// CanSignForURL against the standard library's own hostname matching
+	regOp("bsig_can_sign", func(a []Sx) Sx {
+		chain := certurl.CertChain{}
+		for _, c := range a[0].L {
+			chain = append(chain, augParsed(c))
+		}
+		signer, err := signature.NewSigner(bver.VersionB1, chain, nil, mustURL("https://v.example/"), time.Unix(0, 0), time.Hour)
+		if err != nil {
+			return L(Sym("newerr"))
+		}
+		u := mustURL(string(a[1].B))
+		want := chain[0].Cert.VerifyHostname(u.Hostname()) == nil
+		if signer.CanSignForURL(u) == want {
+			return L(Sym("same"))
+		}
+		return L(Sym("differ"), Bool(want))
+	})
 	regOp("ib_sign_file", func(a []Sx) Sx {
 		// through the sign-bundle binary: integrity-block sub-command
 		d, clean := tmpDir()
